@@ -564,6 +564,9 @@ func sweepsFor(thorough bool) []sweep {
 			{Name: "guarded-o0-throw", Guarded: true, Opt: 0, V: Variant{Raise: 2}, MaxSize: 4, MaxDepth: 3, MaxFuncs: 3},
 			{Name: "guarded-o0-catchvar", Guarded: true, Opt: 0, V: Variant{CatchVar: true}, MaxSize: 4, MaxDepth: 3, MaxFuncs: 3},
 			{Name: "guarded-o0-deferfn", Guarded: true, Opt: 0, V: Variant{DeferFn: true}, MaxSize: 4, MaxDepth: 3, MaxFuncs: 3},
+			{Name: "guarded-o0-defer-named", Guarded: true, Opt: 0, V: Variant{DeferNamed: 1}, MaxSize: 4, MaxDepth: 3, MaxFuncs: 3},
+			{Name: "guarded-o0-defer-named-arg", Guarded: true, Opt: 0, V: Variant{DeferNamed: 2}, MaxSize: 4, MaxDepth: 3, MaxFuncs: 3},
+			{Name: "guarded-o0-defer-method", Guarded: true, Opt: 0, V: Variant{DeferNamed: 3}, MaxSize: 4, MaxDepth: 3, MaxFuncs: 3},
 		}
 	}
 
@@ -577,6 +580,11 @@ func sweepsFor(thorough bool) []sweep {
 		{Name: "guarded-o0-throw", Guarded: true, Opt: 0, V: Variant{Raise: 2}, MaxSize: 4, MaxDepth: 4, MaxFuncs: 3},
 		{Name: "guarded-o0-catchvar", Guarded: true, Opt: 0, V: Variant{CatchVar: true}, MaxSize: 4, MaxDepth: 4, MaxFuncs: 3},
 		{Name: "guarded-o0-deferfn", Guarded: true, Opt: 0, V: Variant{DeferFn: true}, MaxSize: 4, MaxDepth: 4, MaxFuncs: 3},
+		{Name: "guarded-o0-defer-named", Guarded: true, Opt: 0, V: Variant{DeferNamed: 1}, MaxSize: 4, MaxDepth: 4, MaxFuncs: 3},
+		{Name: "guarded-o0-defer-named-arg", Guarded: true, Opt: 0, V: Variant{DeferNamed: 2}, MaxSize: 4, MaxDepth: 4, MaxFuncs: 3},
+		{Name: "guarded-o0-defer-method", Guarded: true, Opt: 0, V: Variant{DeferNamed: 3}, MaxSize: 4, MaxDepth: 4, MaxFuncs: 3},
+		{Name: "guarded-o2-defer-named", Guarded: true, Opt: 2, V: Variant{DeferNamed: 1}, MaxSize: 4, MaxDepth: 4, MaxFuncs: 3},
+		{Name: "bare-o0-defer-named-arg", Guarded: false, Opt: 0, V: Variant{DeferNamed: 2}, MaxSize: 3, MaxDepth: 4, MaxFuncs: 3},
 	}
 }
 
@@ -750,7 +758,7 @@ func main() {
 		}
 	}
 
-	rep.Rule("every program of the trace language {X raise, P panic, R return, b break, c continue, d defer print, r defer recover+print, 1/2 call, T try/catch, U try without catch, L two-iteration loop, ? if on 2nd iteration} with at most N statements, 3 functions and nesting depth D (terminal statements last in their block, every function reachable, at least one X or P), once per sweep (form guarded/bare x optimizer level x spelling variant); distinct = (sweep, program); every one contains a raise or a panic and is executed through the ego run front end")
+	rep.Rule("every program of the trace language {X raise, P panic, R return, b break, c continue, d defer print, r defer recover+print, 1/2 call, T try/catch, U try without catch, L two-iteration loop, ? if on 2nd iteration} with at most N statements, 3 functions and nesting depth D (terminal statements last in their block, every function reachable, at least one X or P), once per sweep (form guarded/bare x optimizer level x spelling variant: raise as division/index/throw, catch with variable, deferred calls as built-in call/function literal/named function/named function with argument/method value); distinct = (sweep, program); every one contains a raise or a panic and is executed through the ego run front end")
 	rep.Assume(
 		"the reference interpreter in harness/c10trace/model.go is the reading of the property statement; deferred calls of functions unwound by a runtime error may run or not (statement silent)",
 		fmt.Sprintf("whether try/catch catches panic() is not stated; the model follows the implementation's answer on a probe program: caught=%v", panicCaught),
